@@ -52,8 +52,12 @@ impl<'a> WireFormat<'a> for CharacterString<'a> {
     where
         Self: Sized,
     {
+        if *position >= data.len() {
+            return Err(SimpleDnsError::InsufficientData);
+        }
+
         let length = data[*position] as usize;
-        if length > MAX_CHARACTER_STRING_LENGTH || length + *position > data.len() {
+        if length > MAX_CHARACTER_STRING_LENGTH || length + *position + 1 > data.len() {
             return Err(SimpleDnsError::InvalidCharacterString);
         }
 
